@@ -8,8 +8,8 @@ u8 vf_nd_u8(void){ u8 v = nondet_u8(); vf_in8 = v; return v; }
 u16 vf_nd_u16(void){ u16 v = nondet_u16(); vf_in16 = v; return v; }
 u32 vf_nd_u32(void){ u32 v = nondet_u32(); vf_in32 = v; return v; }
 u64 vf_nd_u64(void){ u64 v = nondet_u64(); vf_in64 = v; return v; }
-float vf_nd_float(void){ u32 v = vf_nd_u32(); float f; __builtin_memcpy(&f, &v, 4); return f; }
-double vf_nd_double(void){ u64 v = vf_nd_u64(); double f; __builtin_memcpy(&f, &v, 8); return f; }
+float vf_nd_float(void){ union { u32 u; float f; } x; x.u = vf_nd_u32(); return x.f; }
+double vf_nd_double(void){ union { u64 u; double f; } x; x.u = vf_nd_u64(); return x.f; }
 ptr_t vf_alloc(u64 n){ ptr_t p = __CPROVER_allocate(n, 0); __CPROVER_assume(p != 0); return p; }
 void vf_out(u64 v){ (void)v; }
 u8 ll_undef_u8(void){ return nondet_u8(); } u16 ll_undef_u16(void){ return nondet_u16(); } u32 ll_undef_u32(void){ return nondet_u32(); }
